@@ -18,6 +18,7 @@ RECIPES = [
     ("C05", "break", ["C05-R8"], C, "    free(pts);\n    free(cycle_index);\n\n#ifdef USE_FASTER_RAINFLOW_ROUTINE", "    free(pts);\n\n#ifdef USE_FASTER_RAINFLOW_ROUTINE",
      "position stack not freed on the normal exit"),
     ("C05", "break", ["C05-R7"], C, "    if (L < 2) {\n        PyErr_SetString", "    if (L < 1) {\n        PyErr_SetString", "C entry point accepts a single point"),
+    ("C05", "break", ["C05-R7"], PY, "    if L < 2:\n        raise ValueError", "    if L <= 2:\n        raise ValueError", "a sequence of exactly two points is refused"),
     ("C05", "break", ["C05-R7"], C, "    if (getoffsets)\n      return rainflow2(peaks_array, L);\n    return rainflow1(peaks_array, L);",
      "    if (!getoffsets)\n      return rainflow2(peaks_array, L);\n    return rainflow1(peaks_array, L);", "C dispatch inverted"),
     ("C05", "break", ["C05-R7"], CYC, "    import pyyeti.rainflow.c_rain as rain\nexcept ImportError:", "    import pyyeti.rainflow.c_rain as rain\nexcept Exception:",
